@@ -76,7 +76,7 @@ def run(tier):
     rc, txt = C.run_vh(["seqs", "replay", out, tier], timeout=3000)
     r = json.loads(txt)
     # the other direction: random cases beyond the bound, validated by the trace specification
-    n_rec = 1500 if tier == "quick" else 30000
+    n_rec = 1500 if tier == "quick" else 100000
     trace = os.path.join(out, "trace.ndjson")
     C.run_vh(["seqs", "record", str(n_rec), trace])
     accepted = validate_trace(chk, trace, "seqs_trace_" + tier)
@@ -108,7 +108,7 @@ def run(tier):
         "TLC/SANY and the CommunityModules (Json, IOUtils, SequencesExt) are correct",
         "the harness' renderer of values / operands as source text and its tag-free description of result "
         "values (harness/src/seqs.rs: render_value, render_ext, content_of) are faithful",
-        "sequences bounded to length 0..4 (quick) / 0..5 (thorough) over four scalar values of 1-4 UTF-8 bytes and "
+        "sequences bounded to length 0..4 (quick) / 0..6 (thorough) over four scalar values of 1-4 UTF-8 bytes and "
         "four element kinds; slices over 4-6 sequences per length and kind; operands -(n+3)..n+3 plus MIN_INT, "
         "MIN_INT+1, MAX_INT(-1); the symbolic extremes are justified by the saturation laws checked on the "
         "finite part of the axes (Seqs.tla header); recorded runs: length 0..12, operands up to 10^6, around "
